@@ -41,7 +41,7 @@ Proof. exact copy_id. Qed.
 Theorem C07_precondition_needed_refuted :
   exists t a b t', wf t /\ rmslice t a b = Ok t' /\
     py_clamp (tc_len t) a > py_clamp (tc_len t) b /\
-    length (tc_parts t') > length (tc_parts t).
+    (length (tc_parts t') > length (tc_parts t))%nat.
 Proof. exact rmslice_wrong_order_duplicates. Qed.
 
 (* non-vacuity: a concrete layout with non-reducible parts *)
